@@ -361,7 +361,11 @@ CLAIMED = {
             'Decided symbolically (NRA, all real sma>0, step in (0,1], both '
             'growth laws): update_sma grows strictly, reset_sma is its '
             'inverse and the inward sequence shrinks strictly (and stays '
-            'positive for geometric growth). Checked as concrete oracles '
+            'positive for geometric growth); fit_image growth loops with a '
+            'stubbed fit_isophote (symbolic sma0/step/minsma/maxsma, every '
+            'stop-code sequence within the unrolling bound) return a list '
+            'strictly increasing in sma, below maxsma, containing sma0. '
+            'Checked as concrete oracles '
             'over solver-enumerated configurations (frames incl. wide with '
             'x0 > ny and tall, eps, PA, growth law, minsma/maxsma, fix_* '
             'flags, start offset, repeated calls): the isophote list is '
